@@ -37,12 +37,12 @@ func ParseSequenceFile(data []byte) (*SequenceData, error) {
 	// Check page header
 	// pd_special points to the sequence magic number at end of page
 	special := binary.LittleEndian.Uint16(data[16:18])
-	if special == 0 || int(special) >= PageSize-2 {
+	if special == 0 || int(special) > PageSize-4 {
 		return nil, fmt.Errorf("invalid special pointer")
 	}
 
-	// Check magic number at special section
-	magic := binary.LittleEndian.Uint16(data[special:])
+	// Check magic number at special section (sequence_magic is a uint32)
+	magic := binary.LittleEndian.Uint32(data[special:])
 	if magic != SequenceMagic {
 		return nil, fmt.Errorf("not a sequence file (magic: 0x%04X, expected: 0x%04X)", magic, SequenceMagic)
 	}
@@ -149,11 +149,11 @@ func IsSequenceFile(data []byte) bool {
 	}
 
 	special := binary.LittleEndian.Uint16(data[16:18])
-	if special == 0 || int(special) >= PageSize-2 {
+	if special == 0 || int(special) > PageSize-4 {
 		return false
 	}
 
-	magic := binary.LittleEndian.Uint16(data[special:])
+	magic := binary.LittleEndian.Uint32(data[special:])
 	return magic == SequenceMagic
 }
 
